@@ -103,6 +103,14 @@ class ReflectMixin:
             return VBool(z3.Bool(fresh_name("truth")))
         return super().truth(st, v)
 
+    def b_len(self, st, args, kwargs, node):
+        if args and isinstance(args[0], PTok) and args[0].what == "typereg":
+            from pyvc.values import VInt
+            n = z3.Int(fresh_name("reglen"))
+            st.assume(z3.And(n >= 0, (n > 0) == self.truth(st, args[0]).t))
+            return [(st, VInt(n))]
+        return super().b_len(st, args, kwargs, node)
+
     def call_method(self, st, obj, name, args, kwargs, node):
         if isinstance(obj, PTok) and obj.what == "typereg":
             if name == "update" and len(args) == 1 and not kwargs and isinstance(args[0], VRef):
